@@ -17,8 +17,20 @@ use std::sync::atomic::{AtomicU64, Ordering};
 pub fn positions(text: &str) -> Vec<(u32, u32)> {
     let ls = lsptext::lines(text);
     let mut out = vec![];
-    for (li, (s, e)) in ls.iter().enumerate() {
+    // large documents: about 40 lines, on each the first and last columns and the columns around
+    // the 8/16 bit boundaries (every position of every line would be some 10^5 requests)
+    let large = text.len() > 20_000;
+    let line_step = if large { (ls.len() / 40).max(1) } else { 1 };
+    for (li, (s, e)) in ls.iter().enumerate().step_by(line_step) {
         let n = lsptext::utf16_len(&text[*s..*e]);
+        if large {
+            for c in [0, 1, 2, 254, 255, 256, 257, 65534, 65535, 65536, 65537, n.saturating_sub(1), n, n + 1] {
+                if c <= n + 1 {
+                    out.push((li as u32, c));
+                }
+            }
+            continue;
+        }
         for c in 0..=n + 1 {
             out.push((li as u32, c));
         }
@@ -304,6 +316,12 @@ pub fn run(tier: Tier) -> Report {
         edits: vec![vec![(28, 28, "-".to_string())], vec![(130, 130, "while ".to_string())], vec![(166, 171, "// c\n".to_string())], vec![(136, 137, "+".to_string())]],
         raw: vec![],
     });
+    // programs far beyond the small bounds: 2 500 statements, as one line of 60 KB and as
+    // 25 000 lines (requests at sampled positions, see `positions`)
+    for layout in [Layout::Minimal, Layout::Lines, Layout::Cr] {
+        let pr = print_program(&progs::scale_program(40, 40, 2500));
+        scs.push(plain(render(&pr.toks, layout, &[], &|_| String::new()).text));
+    }
     run_family("nesting-ladders", scs, false, &mut fails);
     // edit histories: requests after one and two didChange notifications (incremental tree)
     let mut scs = vec![];
